@@ -36,7 +36,36 @@ def special_defs():
     defs.append(("SQ1", {"k": "seq", "ms": [("m%d" % j, {"k": "bool", "tag": ("CONTEXT", j, None)}, True) for j in range(11)]
                                            + [("mand", {"k": "bool", "tag": ("CONTEXT", 20, None)}, False),
                                               ("tail", {"k": "bool", "tag": ("CONTEXT", 21, None)}, True)]}))
+    # lists longer than 200 elements of every element kind (a guard in SET_OF_decode_uper counts elements that
+    # "consumed nothing"; only BOOLEAN and the string decoders report what they consumed)
+    defs.append(("LI", {"k": "seqof", "con": None, "el": {"k": "int", "con": (0, 255, False)}}))
+    defs.append(("LU", {"k": "seqof", "con": None, "el": {"k": "int", "con": None}}))
+    defs.append(("LS", {"k": "seqof", "con": None, "el": {"k": "seq", "ms": [("a", {"k": "bool"}, False), ("b", {"k": "int", "con": (0, 7, False)}, True)]}}))
+    defs.append(("LC", {"k": "seqof", "con": None, "el": {"k": "choice", "ms": [("a", {"k": "bool"}, False), ("b", {"k": "int", "con": (0, 7, False)}, False)]}}))
+    defs.append(("LO", {"k": "seqof", "con": (0, 400, False), "el": {"k": "oct", "con": (1, 1, False)}}))
+    defs.append(("LLe", {"k": "seqof", "con": (0, 3, False), "el": {"k": "int", "con": (0, 1, False)}}))
+    defs.append(("LL", {"k": "seqof", "con": None, "el": {"k": "ref", "ref": "LLe"}}))
+    defs.append(("LT", {"k": "setof", "con": None, "el": {"k": "int", "con": (0, 255, False)}}))
     return defs
+
+
+LONG_LIST_LENGTHS = (199, 200, 201, 202, 300)
+
+
+def long_list_value(tn, n):
+    if tn in ("LI", "LT"):
+        return ("L", [(i * 37 + n) % 256 for i in range(n)])
+    if tn == "LU":
+        return ("L", [(i * 7919 - 4000) * (1 if i % 3 else 65537) for i in range(n)])
+    if tn == "LS":
+        return ("L", [("S", [bool(i % 2), (("!", i % 8) if i % 3 else ("_",))]) for i in range(n)])
+    if tn == "LC":
+        return ("L", [("C", i % 2, (bool(i % 3 == 0) if i % 2 == 0 else i % 8)) for i in range(n)])
+    if tn == "LO":
+        return ("L", [bytes([(i * 11) % 256]) for i in range(n)])
+    if tn == "LL":
+        return ("L", [("L", [(i + j) % 2 for j in range(i % 4)]) for i in range(n)])
+    raise KeyError(tn)
 
 
 def special_module(name="MS"):
@@ -70,6 +99,8 @@ def special_values(tn, tree, rng, tier):
         out = [bytes((i * 31 + n) % 256 for i in range(n)) for n in ns]
     elif tn == "SO4":
         out = [("L", [bool((i * 5) % 3 == 0) for i in range(n)]) for n in (1, 3, 129)]
+    elif tn in ("LI", "LU", "LS", "LC", "LO", "LL", "LT"):
+        out = [long_list_value(tn, n) for n in (LONG_LIST_LENGTHS if tn != "LT" or tier == "thorough" else (200, 201))]
     elif tn == "SQ1":
         n = len(tree[2])
         pats = [[False] * n, [True] * n] + [[j == i for j in range(n)] for i in range(n)] + [[j >= i for j in range(n)] for i in range(1, n)]
